@@ -126,6 +126,10 @@ def specials(rng):
     for cli, srv in (("basic", "async"), ("async", "basic"), ("buffered", "buffered")):
         o = case_ops(cli, srv, 0, 50, "s", "s", "seq", 7, rng.randrange(10**6), 5000, 5000, extra="wsegc=1000 wsegs=333")
         out.append(o)
+    # DriverPending: an async side with nothing queued whose handshake flight is cut short by the kernel
+    for cli, srv in (("basic", "async"), ("async", "async")):
+        o = case_ops(cli, srv, 0, 0, "s", "r", "seq", 0, rng.randrange(10**6), 3000, 100, extra="wsegs=200 wsegc=150")
+        out.append(o)
     # known finding F8: async receive buffer smaller than one TLS record
     out.append(case_ops("basic", "async", 0, 0, "s", "r", "seq", 0, rng.randrange(10**6), 10000, 0, rsz=4096))
     return [o for o in out if o]
